@@ -7,7 +7,8 @@ all histories (`runPool`, induction over the operation list in `Lemmas/DelegRun.
 
 Full-strength clauses that the code as it is does **not** satisfy are kept as `def … : Prop`
 (`DelegatesWriteFull`, `NotifyFull`) next to the proved restriction and a proved refutation whose
-witness history is replayed on the implementation by the oracle (known findings F18-F20).
+witness history is replayed on the implementation by the oracle (known findings F19, F20).  Findings
+F18 and F21 are repaired in /repo (bead785, ec4908f); their witness histories are regression theorems here.
 -/
 import TraitsVerif.Lemmas.DelegRun
 import TraitsVerif.Lemmas.DelegChain
@@ -209,9 +210,9 @@ theorem C11_prototype_independent (E : Env) (p : Pool) (o : ObjId) (n : Name) (d
   simp only [Model.Deleg.read, this, hloc]
 
 /-- **`del` restores the link.**  Deleting the local value of a prototyped attribute (chain ending in a
-typed attribute) removes the value; unless the operation raised after deleting (`broken`, only possible
-when re-hooking the listener fails) it succeeds and re-installs the forwarder hooked on the current
-delegate; in both cases the attribute reads through the delegate again. -/
+typed attribute) removes the value; unless the operation raised after deleting (`broken`: the read-back
+through the link failed, see `C11_hooks_never_fail`) it succeeds and re-installs the forwarder hooked on
+the current delegate; in both cases the attribute reads through the delegate again. -/
 theorem C11_prototype_del_relinks (E : Env) (i : Nat) (p : Pool) (I : Inv p) (o : ObjId) (n : Name) (d : DelegInfo)
     (x : ObjId) (t : Name) (vid : Nat) (dflt old : Val)
     (htd : (p.obj o).cls.trait n = .defer d) (hm : d.modify = false)
@@ -305,8 +306,9 @@ theorem C11_prototype (E : Env) (cs : List Cls) (hwf : ∀ c ∈ cs, ClsWF c) (o
 
 /-- **Swap.**  After `o.d = t` (a different object, or None): the delegate reference is `t`; no other
 object and no attribute value changed; every forwarder of `o` is hooked on the new delegate or on
-nothing — never on the old delegate — and on the new delegate exactly when no listener hook raised; and
-every linked deferring attribute of `o` reads through the new delegate.  (`C11_read`,
+nothing — never on the old delegate — every forwarder that existed is hooked on the new delegate, no
+listener exception is swallowed (the F18 regression: before fix bead785 a hook could raise); and every
+linked deferring attribute of `o` reads through the new delegate.  (`C11_read`,
 `C11_delegates_write`, `C11_prototype_*` and `C11_notify` are stated for every reachable state, so they
 hold for the new delegate as well.) -/
 theorem C11_swap (E : Env) (i : Nat) (p : Pool) (I : Inv p) (o : ObjId) (t : Option ObjId)
@@ -316,7 +318,7 @@ theorem C11_swap (E : Env) (i : Nat) (p : Pool) (I : Inv p) (o : ObjId) (t : Opt
     (∀ j, (s.pool.obj j).dict = (p.obj j).dict ∧ (j ≠ o → (s.pool.obj j).deleg = (p.obj j).deleg ∧
         (s.pool.obj j).fwd = (p.obj j).fwd)) ∧
     (∀ n h, (s.pool.obj o).fwd n = some (some h) → t = some h) ∧
-    (s.hookExc = 0 → ∀ n, (p.obj o).fwd n ≠ none → (s.pool.obj o).fwd n = some t) ∧
+    (s.hookExc = 0 ∧ ∀ n, (p.obj o).fwd n ≠ none → (s.pool.obj o).fwd n = some t) ∧
     (∀ n d y, (p.obj o).cls.trait n = .defer d → (p.obj o).dict n = none → t = some y →
       ∀ f, read s.pool (f + 1) o n = read s.pool f y (targetName (p.obj o).cls.pfx n d)) := by
   intro s
@@ -336,7 +338,8 @@ theorem C11_swap (E : Env) (i : Nat) (p : Pool) (I : Inv p) (o : ObjId) (t : Opt
     · rw [(hfr j).2.2.2 hj]; simp
   · intro n h hf
     rw [← hdel]; exact I'.hook o n h hf
-  · intro hx n hf
+  · have hx : s.hookExc = 0 := (step_flags E i p (.swap o t)).1
+    refine ⟨hx, fun n hf => ?_⟩
     rw [hs] at hx ⊢
     simp only [] at hx ⊢
     obtain ⟨d, htd⟩ := (I.fwd o n).1 hf
@@ -389,22 +392,34 @@ theorem C11_chain_limit (E : Env) (i : Nat) (p : Pool) (o : ObjId) (n : Name) (d
 
 /-! ## Notification -/
 
-/-- In every reachable state of a history during which no listener hook failed, every linked deferring
-attribute has its forwarder hooked on the current delegate. -/
+/-- **Listener hooks never fail** (fix bead785 of finding F18): no operation, in any state, swallows an
+exception of a notification handler; and the only operation that can raise *after* having changed the
+object is the `del` of a prototyped attribute's local value whose read-back through the link fails
+(which needs write walk and read chain to disagree: finding F19, or a missing delegate). -/
+theorem C11_hooks_never_fail (E : Env) (k : Nat) (p : Pool) (op : Op) :
+    (step E k p op).hookExc = 0 ∧
+    ((step E k p op).broken = true → ∃ o n d, op = .del o n ∧ (p.obj o).cls.trait n = .defer d ∧
+      d.modify = false ∧ (p.obj o).dict n ≠ none ∧
+      ∃ e, read (p.setDict o n none) (p.setDict o n none).fuel o n = .error e) :=
+  step_flags E k p op
+
+/-- In every reachable state of a history during which no `del` raised after deleting, every linked
+deferring attribute has its forwarder hooked on the current delegate. -/
 theorem C11_linked_reachable (E : Env) (cs : List Cls) (hwf : ∀ c ∈ cs, ClsWF c) (ops : List Op)
-    (hnf : NoHookFailure E 0 (mkPool cs) ops) :
+    (hnf : NoBrokenDel E 0 (mkPool cs) ops) :
     Inv (runPool E 0 (mkPool cs) ops) ∧ Linked (runPool E 0 (mkPool cs) ops) :=
   ⟨runPool_inv E ops 0 _ (mkPool_inv cs hwf),
    runPool_linked E ops 0 _ (mkPool_inv cs hwf) (mkPool_linked cs) hnf⟩
 
 /-- **Linked → notified, once, with the new value.**  After any history (on classes built by
-`DelegatesTo` / `PrototypedFrom` with any of the four prefix styles) during which no listener hook
-failed: for a deferring attribute `(o, n)` that is linked (DelegatesTo, or PrototypedFrom without local
+`DelegatesTo` / `PrototypedFrom` with any of the four prefix styles) during which no `del` raised after
+deleting (`NoBrokenDel`; in particular after every history without `del`, `C11_notify_no_del`, and in
+whatever order the chain was wired — `C11_notify_top_down`): for a deferring attribute `(o, n)` that is linked (DelegatesTo, or PrototypedFrom without local
 value) and whose current delegate is `y`, every notification `(a, b)` of the target attribute on `y`
 — `notify p _ y t a b` is `call_notifiers` for `(y, t)` — calls the handlers of `(o, n)` with the same
 old and new value; exactly once when the delegate graph is acyclic. -/
 theorem C11_notify (E : Env) (cs : List Cls) (hok : ∀ c ∈ cs, ClsOK c) (ops : List Op)
-    (hnf : NoHookFailure E 0 (mkPool cs) ops) (o : ObjId) (n : Name) (d : DelegInfo) (y : ObjId) :
+    (hnf : NoBrokenDel E 0 (mkPool cs) ops) (o : ObjId) (n : Name) (d : DelegInfo) (y : ObjId) :
     let p := runPool E 0 (mkPool cs) ops
     o < p.size → (p.obj o).cls.trait n = .defer d → (d.modify = true ∨ (p.obj o).dict n = none) →
     (p.obj o).deleg = some y →
@@ -429,6 +444,17 @@ theorem C11_notify (E : Env) (cs : List Cls) (hok : ∀ c ∈ cs, ClsOK c) (ops 
   have hmem := forwarder_of_linked L ho hcls htd hd hy
   refine ⟨hmem, fun f a b => notify_contains hmem f a b, fun rank hr f a b => ?_⟩
   exact notify_count_one I.wf (acyclic_of_deleg I.hook rank hr) hmem f a b
+
+/-- Histories of assignments, re-pointings and reads (no `del`): `C11_notify` without any hypothesis on
+the history. -/
+theorem C11_notify_no_del (E : Env) (cs : List Cls) (hok : ∀ c ∈ cs, ClsOK c) (ops : List Op)
+    (hnd : ∀ op ∈ ops, ∀ o n, op ≠ .del o n) (o : ObjId) (n : Name) (d : DelegInfo) (y : ObjId) :
+    let p := runPool E 0 (mkPool cs) ops
+    o < p.size → (p.obj o).cls.trait n = .defer d → (d.modify = true ∨ (p.obj o).dict n = none) →
+    (p.obj o).deleg = some y →
+    ∀ f a b, (⟨o, n, a, b⟩ : Event) ∈ notify p (f + 2) y (targetName (p.obj o).cls.pfx n d) a b := by
+  intro p ho htd hl hy
+  exact (C11_notify E cs hok ops (noBrokenDel_of_no_del E ops 0 _ hnd) o n d y ho htd hl hy).2.1
 
 /-- The same, seen from an assignment: in a state where the links are hooked, assigning the (typed)
 target attribute on the current delegate a value that differs from the old one puts the event
@@ -459,7 +485,7 @@ theorem C11_notify_on_assign (E : Env) (i : Nat) (p : Pool) (I : Inv p) (L : Lin
   rw [hfuel]
   exact notify_contains hmem _ _ _
 
-/-- **Unlinked → not notified**, in every reachable state of every history (hook failures or not): a
+/-- **Unlinked → not notified**, in every reachable state of every history (no hypothesis): a
 prototyped attribute that holds a local value has no forwarder, and no notification cascade started on
 another attribute ever contains an event for it. -/
 theorem C11_notify_unlinked (E : Env) (cs : List Cls) (hwf : ∀ c ∈ cs, ClsWF c) (ops : List Op) (k : Nat)
@@ -479,7 +505,7 @@ theorem C11_notify_unlinked (E : Env) (cs : List Cls) (hwf : ∀ c ∈ cs, ClsWF
   · rw [ho, hn, hf] at hh; cases hh
 
 /-- The notification clause at full strength: linked → notified, in every reachable state of **every**
-history (without the `NoHookFailure` hypothesis of `C11_notify`). -/
+history (without the `NoBrokenDel` hypothesis of `C11_notify`). -/
 def NotifyFull : Prop :=
   ∀ (E : Env) (cs : List Cls), (∀ c ∈ cs, ClsOK c) → ∀ (ops : List Op) (o : ObjId) (n : Name) (d : DelegInfo) (y : ObjId),
     let p := runPool E 0 (mkPool cs) ops
@@ -488,35 +514,42 @@ def NotifyFull : Prop :=
 
 /-! ### witnesses -/
 
-/-- Finding F18 (`topDown`: the chain `o0.x → o1.x → o2.x` wired top-down).  The first re-pointing makes a listener hook raise (swallowed): `o1.base_trait('x')` fails because
-`o1.d` is still None; afterwards `o0.x` is linked and reads through to `o2`, but the change of `o2.x`
-reaches the handlers of `o1.x` only. -/
-theorem C11_notify_hook_failure_witness :
+/-- Regression witness of finding F18 (`topDown`: the chain `o0.x → o1.x → o2.x` wired top-down, `o0.d = o1`
+while `o1.d` is still None).  On the repaired code no hook raises, the forwarder of `o0.x` is hooked on
+`o1`, and the change of `o2.x` reaches the handlers of `o1.x` *and* `o0.x`.  (Before fix bead785:
+`hookExc = 1`, forwarder unhooked, events for `o2` and `o1` only.) -/
+theorem C11_notify_top_down :
     let p := runPool idEnv 0 (mkPool [clsD, clsD, clsT]) topDown
-    (step idEnv 0 (mkPool [clsD, clsD, clsT]) (.swap 0 (some 1))).hookExc = 1 ∧
-    (p.obj 0).deleg = some 1 ∧ (p.obj 0).fwd nx = some none ∧ read p 4 0 nx = .ok 3 ∧
-    (step idEnv 2 p (.set 2 nx 5)).events = [⟨2, nx, 3, 5⟩, ⟨1, nx, 3, 5⟩] ∧
+    (step idEnv 0 (mkPool [clsD, clsD, clsT]) (.swap 0 (some 1))).hookExc = 0 ∧
+    (p.obj 0).deleg = some 1 ∧ (p.obj 0).fwd nx = some (some 1) ∧ read p 4 0 nx = .ok 3 ∧
+    (step idEnv 2 p (.set 2 nx 5)).events = [⟨2, nx, 3, 5⟩, ⟨1, nx, 3, 5⟩, ⟨0, nx, 3, 5⟩] ∧
     read (step idEnv 2 p (.set 2 nx 5)).pool 4 0 nx = .ok 5 := by
   decide
 
-/-- **The full-strength notification clause fails** on the code as it is (F18). -/
+/-- Finding F19, notification side (`deepClasses`, `brokenDel`): the `del` of `a.x` deletes the local
+value, its read-back raises (the delegate of `c` was set to None while the write walk ends on `c.a_a_x`),
+and `a.x` is left linked without forwarder. -/
+theorem C11_notify_broken_del_witness :
+    let p := runPool idEnv 0 (mkPool deepClasses) brokenDel
+    (step idEnv 5 (runPool idEnv 0 (mkPool deepClasses) (brokenDel.take 5)) (.del 0 nx)).broken = true ∧
+    (p.obj 0).dict nx = none ∧ (p.obj 0).deleg = some 1 ∧ (p.obj 0).fwd nx = none ∧
+    forwarders p 1 nax = [] := by
+  decide
+
+/-- **The full-strength notification clause fails** on the code as it is (F19: a `del` that raises after
+deleting leaves the link without forwarder). -/
 theorem C11_notify_full_fails : ¬ NotifyFull := by
   intro h
-  have := h idEnv [clsD, clsD, clsT] (by
-    intro c hc
-    simp only [List.mem_cons, List.not_mem_nil, or_false] at hc
-    rcases hc with rfl | rfl | rfl
-    · exact clsD_ok
-    · exact clsD_ok
-    · exact clsT_ok) topDown 0 nx (mkDelegate [] true) 1 (by decide) (by decide) (Or.inl rfl) (by decide)
+  have := h idEnv deepClasses deepClasses_ok brokenDel 0 nx (mkDelegate ['*'] false) 1
+    (by decide) (by decide) (Or.inr (by decide)) (by decide)
   revert this
   decide
 
 /-! ### the hypotheses of the main theorems are satisfiable -/
 
-/-- The same three objects wired bottom-up (`bottomUp`): no hook fails, … -/
-example : NoHookFailure idEnv 0 (mkPool [clsD, clsD, clsT]) bottomUp := by
-  unfold NoHookFailure; decide
+/-- Three objects wired bottom-up (`bottomUp`): no `del` breaks a link, … -/
+example : NoBrokenDel idEnv 0 (mkPool [clsD, clsD, clsT]) bottomUp := by
+  unfold NoBrokenDel; decide
 
 /-- … `C11_notify` applies to `(o0, x)` with delegate `o1`, and the cascade of `o2.x` reaches it. -/
 example : (⟨0, nx, 3, 5⟩ : Event) ∈
